@@ -205,6 +205,34 @@ def rt_library(env_bytes):
     return obj, again
 
 
+def misnamed_members(env_bytes, obj):
+    """the text-keyed members of the envelope, classified by their content alone (a dependency is a tag-107 map that holds a manifest;
+    anything else is a payload), must be shown under the member of that kind"""
+    try:
+        top = cbor2.loads(env_bytes)
+        members = top.value if isinstance(top, cbor2.CBORTag) else {}
+        shown = obj.get("SUIT_Envelope_Tagged", {}) if isinstance(obj, dict) else {}
+    except Exception:  # noqa: BLE001
+        return None
+    from collections.abc import Mapping
+    if not isinstance(members, Mapping) or not isinstance(shown, Mapping):
+        return None
+    deps, pays = shown.get("suit-integrated-dependencies") or {}, shown.get("suit-integrated-payloads") or {}
+    for k, v in members.items():
+        if not isinstance(k, str) or not isinstance(v, bytes):
+            continue
+        try:
+            inner = cbor2.loads(v)
+            is_dep = isinstance(inner, cbor2.CBORTag) and inner.tag == 107 and isinstance(inner.value, Mapping) and 3 in inner.value
+        except Exception:  # noqa: BLE001
+            is_dep = False
+        if is_dep and k not in deps:
+            return f"the integrated dependency {k!r} (a tag-107 envelope) is shown under {'suit-integrated-payloads' if k in pays else 'no member'}"
+        if not is_dep and k not in pays:
+            return f"the integrated payload {k!r} ({len(v)} raw bytes) is shown under {'suit-integrated-dependencies' if k in deps else 'no member'}"
+    return None
+
+
 def check_one(ck, stream, env_bytes, origin, fails, mres_parse=None, mres_re=None, desc=None):
     key = env_bytes
     r = interp.run_impl(rt_library, env_bytes)
@@ -215,6 +243,9 @@ def check_one(ck, stream, env_bytes, origin, fails, mres_parse=None, mres_re=Non
         return
     obj, again = r[1]
     why = compare_envelopes(env_bytes, again)
+    mis = misnamed_members(env_bytes, obj)
+    if mis:
+        fails.append({"input": inp, "observed": mis, "expected": "payloads shown as payloads, dependencies as dependencies"})
     if why:
         k = classify_known(ck, env_bytes, obj, why)
         if k is None:
@@ -245,13 +276,16 @@ def classify_known(ck, env_bytes, obj, why):
     k = ck.is_known("nonascii_single_char_part", why)
     if k is None:
         return None
-    def has(o):
+    def has(o, inside=False):
+        # only PARTS OF COMPONENT IDENTIFIERS count (suit-components, suit-manifest-component-id, suit-dependency-prefix, component keys of
+        # text maps): a hex string anywhere else (a payload, a digest) is not a witness of this finding
         if isinstance(o, dict):
-            return any(has(v) for v in o.values()) or any(isinstance(x, str) and x.startswith("[") and has(_j2(x)) for x in o)
+            return any(has(v, inside or ("component" in str(kk) or "prefix" in str(kk))) for kk, v in o.items()) \
+                or any(isinstance(x, str) and x.startswith("[") and has(_j2(x), True) for x in o)
         if isinstance(o, list):
-            return any(has(v) for v in o)
-        return isinstance(o, str) and len(o) % 2 == 0 and 2 <= len(o) <= 8 and _is_single_nonletter(o)
-    if has(obj):
+            return any(has(v, inside) for v in o)
+        return inside and isinstance(o, str) and len(o) % 2 == 0 and 2 <= len(o) <= 8 and _is_single_nonletter(o)
+    if has(obj) and why.startswith("member "):
         ck.known_finding(k, k["what_fails"] + f" [replayed: {why[:80]}]")
         return k
     return None
@@ -347,12 +381,22 @@ def corpus(ck, tmp):
     second = json.loads(json.dumps(designed[0]))
     del second["SUIT_Envelope_Tagged"]["suit-integrated-payloads"]["#empty-inline"]
     designed.append(second)
+    # the same members in the other order: the dependency before the payloads (members are classified one by one while parsing)
+    third = json.loads(json.dumps(second))
+    t = third["SUIT_Envelope_Tagged"]
+    pl = t.pop("suit-integrated-payloads")
+    t["suit-integrated-payloads"] = pl
+    designed.append(third)
+    fourth = json.loads(json.dumps(third))
+    f4 = fourth["SUIT_Envelope_Tagged"]
+    f4["suit-integrated-dependencies"]["#child2.suit"] = json.loads(json.dumps(child))
+    designed.append(fourth)
     for dsc in designed:
         rr = interp.run_impl(interp.impl_create, json.loads(json.dumps(dsc)))
         if rr[0] != "ok":
             ck.count("corpus", json.dumps(dsc, sort_keys=True), nontrivial=False, sample={"designed": "boundary members", "create": rr[1]})
             continue
-        check_one(ck, "corpus", rr[1], "boundary members (zero-length payload / text / uri / component part, empty names, dependency next to payloads)", fails)
+        check_one(ck, "corpus", rr[1], "boundary members (zero-length payload / text / uri / component part, empty names, dependency next to payloads)", fails, desc=dsc)
     # finite leaf alphabets, completely: every ASCII letter as a one-character component part, every registered enum name of
     # the small tables (algorithms, key-wrap, version comparison) wherever a description can name it
     import string
